@@ -14,7 +14,10 @@ from .. import core, runner
 from . import c01, c02, c05, c12, c14, c15, c20, regcommon, worldcommon, c08, spectwin
 from . import c10life
 
-THEOREMS = ["ZI.Order.C12_twin", "ZI.Order.c_eq_py", "ZI.Adapt.C14_twin", "ZI.Adapt.callC_eq_callPy"] + spectwin.THEOREMS
+THEOREMS = ["ZI.Order.C12_twin", "ZI.Order.c_eq_py", "ZI.Adapt.C14_twin", "ZI.Adapt.callC_eq_callPy",
+            # the lookup entry points: C composition (_adapter_hook -> _lookup1 -> _lookup, VB_*) = Python composition, all inputs, cache left behind included
+            "ZI.LookupTwin.lookup_twin", "ZI.LookupTwin.lookup1_twin", "ZI.LookupTwin.adapterHook_twin", "ZI.LookupTwin.verifying_twin",
+            "ZI.LookupTwin.lookup1_eq_lookup", "ZI.LookupTwin.nonstring_name_refused"] + spectwin.THEOREMS
 KNOWN = "eq-foreign-nonstr-name"
 
 
@@ -47,8 +50,8 @@ def streams(rnd, tier):
 
 def check(tier):
     chk = core.Check("C10", tier, level="proof")
-    chk.obligations(THEOREMS, ["f_c = f_py for the remaining twin pairs (the specification descriptors ClassProvidesBase.__get__ / ObjectSpecificationDescriptor.__get__, "
-                               "LookupBase / VerifyingBase): their C logic is compared with the Python reference by differential execution only"])
+    chk.obligations(THEOREMS, ["f_c = f_py for lookupAll / subscriptions / queryMultiAdapter / subscribers of LookupBase / VerifyingBase (one shared body in both "
+                               "implementations) and everything else not named in the theorems: compared with the Python reference by differential execution only"])
     rnd = core.rng("C10")
     fails, known, known2 = [], [], []
     total = 0
